@@ -21,6 +21,7 @@ class Suite:
     def __init__(self, run, sess, funcs, scr):
         self.run = run; self.sess = sess; self.funcs = funcs; self.scr = scr
         self.results = []       # dict(name, tags, verdict, detail)
+        self.scalar_cases = []  # (kernel name, args, lemma) derived from counterexamples of closure lemmas, replayed natively
         src = open(os.path.join(scr.repo, 'src', 'types.rs')).read()
         self.skf = self._fields(src, 'PrivateKey'); self.pkf = self._fields(src, 'PublicKey')
 
@@ -507,8 +508,16 @@ class Suite:
                     want = S.make_hint(g2, -sx(t), sx(w) - sx(c) + sx(t))
                     f = (out.t == 1) != want
                     f = z3.Or(f, z3.And(out.t != 0, out.t != 1))
-                ok &= sess.discharge_obligations(nm + f' gamma2={g2}', obl, p)
-                ok &= sess.discharge(nm + f' gamma2={g2}: equals the FIPS 204 formula for every coefficient value', f, pre=p, fn=inner) == 'unsat'
+                def cb(name, vals, rec_, kind=kind, g2=g2):
+                    g = lambda k: next((v for kk, v in vals.items() if kk.startswith('in:' + k)), 0)
+                    if kind == 'use_hint':
+                        self.scalar_cases.append(('use_hint', [g2, g('h'), g('wp_approx')], name))
+                    elif kind == 'high_bits':
+                        self.scalar_cases.append(('high_bits', [g2, g('w')], name))
+                    elif kind == 'r0':
+                        self.scalar_cases.append(('low_bits', [g2, (g('w') - g('c_s_2')) % Q], name))
+                ok &= sess.discharge_obligations(nm + f' gamma2={g2}', obl, p, on_sat=cb)
+                ok &= sess.discharge(nm + f' gamma2={g2}: equals the FIPS 204 formula for every coefficient value', f, pre=p, fn=inner, on_sat=cb) == 'unsat'
             rec(ok); return
         if kind in ('mulmont', 'submont', 'unmont', 'shiftd'):
             E, out, obl, pre, ins = intrun()
@@ -559,8 +568,12 @@ class Suite:
                 x = list(ins.values())[0]; t1 = z3.BitVec('t1', 64)
                 p = z3.And(*pre, t1 >= 0, t1 <= 1023, sx(x) == S.emod(t1 * 8192, Q))
                 f = o != t1
-            ok = sess.discharge_obligations(nm, obl, p)
-            ok &= sess.discharge(nm + ': equals the FIPS 204 formula for every coefficient value', f, pre=p, fn=inner) == 'unsat'
+            def cb2(name, vals, rec_, kind=kind):
+                g = lambda k: next((v for kk, v in vals.items() if kk.startswith('in:' + k)), 0)
+                if kind == 'center':
+                    self.scalar_cases.append(('center_mod', [g('z')], name))
+            ok = sess.discharge_obligations(nm, obl, p, on_sat=cb2)
+            ok &= sess.discharge(nm + ': equals the FIPS 204 formula for every coefficient value', f, pre=p, fn=inner, on_sat=cb2) == 'unsat'
             rec(ok); return
         raise e2.Refuse('unknown lemma kind ' + kind)
 
